@@ -153,11 +153,12 @@ def corpus_sources():
     import ast
     import glob
     srcs = []
-    for p in sorted(glob.glob('/repo/tests/samples/*.tex')):
+    repo = os.environ.get('VERIF_REPO', '/repo')
+    for p in sorted(glob.glob(repo + '/tests/samples/*.tex')):
         with open(p, encoding='utf-8') as f:
             srcs.append(f.read())
-    for p in sorted(glob.glob('/repo/tests/*.py')) + sorted(glob.glob('/repo/TexSoup/*.py')) + \
-            sorted(glob.glob('/repo/examples/*.py')):
+    for p in sorted(glob.glob(repo + '/tests/*.py')) + sorted(glob.glob(repo + '/TexSoup/*.py')) + \
+            sorted(glob.glob(repo + '/examples/*.py')):
         try:
             import warnings
             with warnings.catch_warnings():
